@@ -96,6 +96,10 @@ def _rules():
             lambda R, c, rid: _as(R, c, rid, c02.rule_c, "C02.c"),
             lambda R, c, rid: shared.encoder_sinks(R, c, rid),
         ],
+        "type-api": [
+            lambda R, c, rid: shared.api_delegations(R, c, rid),
+            lambda R, c, rid: shared.map_try_update(R, c, rid),
+        ],
         "map-api": [
             lambda R, c, rid: shared.map_api(R, c, rid),
             lambda R, c, rid: preds.rule(R, c, rid, ["map_contains_key"]),
@@ -161,9 +165,9 @@ def _rules():
 DEPENDS = {
     "C01": ["squash", "splice", "partial", "flags", "stash-deletes", "lookup", "content", "export", "liveness", "block-wire", "merge", "state-vector", "identity", "weak-wire", "update-events", "creation"],
     "C02": ["stash-deletes", "lookup", "export", "block-wire", "merge", "state-vector"],
-    "C03": ["splice", "conflict", "lookup", "content", "map-api", "text-units", "creation", "liveness"],
+    "C03": ["splice", "conflict", "lookup", "content", "map-api", "text-units", "creation", "liveness", "type-api"],
     "C04": ["splice", "dependency", "stash-deletes", "lookup", "content", "block-iter", "update-events", "liveness"],
-    "C05": ["conflict", "squash", "splice", "dependency", "map-api", "merge", "delete-set", "update-events", "liveness"],
+    "C05": ["conflict", "squash", "splice", "dependency", "map-api", "merge", "delete-set", "update-events", "liveness", "type-api"],
     "C06": ["dependency", "delete-set", "slice", "partial", "lookup", "content", "merge", "state-vector", "liveness", "block-wire"],
     "C07": ["delete-set", "slice", "partial", "export", "liveness", "block-wire", "state-vector", "creation"],
     "C08": ["slice", "delete-set", "partial", "block-wire", "state-vector", "merge"],
@@ -174,7 +178,7 @@ DEPENDS = {
     "C14": ["splice", "liveness", "lookup", "redone", "block-iter", "identity"],
     "C15": ["squash", "splice", "content", "block-wire", "liveness", "gc-scope"],
     "C16": ["delete-set", "lookup"],
-    "C17": ["flags", "content", "map-api", "block-iter"],
+    "C17": ["flags", "content", "map-api", "block-iter", "type-api"],
     "C18": ["dependency", "stash-deletes", "partial", "export", "block-wire", "merge", "state-vector", "lookup"],
     "C20": ["dependency", "splice", "squash", "lookup", "identity", "weak-wire", "liveness"],
 }
